@@ -495,4 +495,15 @@ example : TsSpecValid sampleSchema ∧ NoSpecRecursion sampleSchema := by
   | step h1 => rw [hrefs] at h1; cases h1
   | cons h1 _ => rw [hrefs] at h1; cases h1
 
+/-
+`C05_complete` has no side condition, but note what it does NOT say (OPEN — carried by K/O only; see also the status
+block at the end of Props/C05.lean):
+* `TsSpecValid` contains `uniqueDirectiveNames` (built-ins counted), so a document that re-declares a built-in directive —
+  accepted by the code — is outside the theorem; for it only `C05_unique_names_complete` (the new rule alone) is proved,
+  the rest is the O mode `valid-redeclare`;
+* the conclusion is `checkSchema T = []`: nothing is stated about the resolver model `dupOriginal?` on a valid document;
+* `C05_complete_recursion` / `C05_complete_rel` take `uniqueTypeNames`, `uniqueDirectiveNames` resp. `NoSpecRecursion` as
+  hypotheses; `C05_complete` discharges them from `TsSpecValid`.
+-/
+
 end NitroVerif.CheckTs
